@@ -560,7 +560,7 @@ pub fn run(o: &Opts) -> Report {
     for _ in 0..(if o.thorough { 2000000 } else { 200000 }) { extra.push(("soup", random_soup(&mut rng))); }
     for _ in 0..(if o.thorough { 400000 } else { 60000 }) { extra.push(("star", star_set(&mut rng))); }
     for _ in 0..(if o.thorough { 400000 } else { 60000 }) { extra.push(("bands", band_set(&mut rng))); }
-    for _ in 0..(if o.thorough { 40000 } else { 4000 }) { extra.push(("holebands", holeband_set(&mut rng))); }
+    for _ in 0..(if o.thorough { 16000 } else { 4000 }) { extra.push(("holebands", holeband_set(&mut rng))); }
     // zeros written as -0.0 half the time (the same points: -0.0 == 0.0), on sets that touch the axes
     {
         let bases = shapes();
